@@ -817,3 +817,30 @@ pub fn bfp_raw_plumbing() {
     vcover!(n < 48);
     vcover!(n > 48);
 }
+
+// --------------------------------------------------------------------------- BLS12-381 Fp2 decoder
+
+/// `Fp2::from_repr` (PrimeField, the checked decoder of the quadratic extension) is total: it returns
+/// `Some` exactly when both 48-byte halves are below p and never panics. [expected to FAIL on the pinned tree:
+/// it unwraps the two `CtOption<Fp>` halves and always answers `Choice::from(1)`]
+#[cfg_attr(kani, kani::proof)]
+#[cfg_attr(kani, kani::unwind(98))]
+#[cfg_attr(kani, kani::stub(blst::blst_fp_from_lendian, stub_fp_from_lendian))]
+pub fn bfp2_from_repr_total() {
+    use midnight_curves::bls12_381::Fp2;
+    let b: [u8; 96] = any();
+    let (mut lo, mut hi) = ([0u8; 48], [0u8; 48]);
+    let mut i = 0;
+    while i < 48 {
+        lo[i] = b[i];
+        hi[i] = b[48 + i];
+        i += 1;
+    }
+    let mut repr = <Fp2 as PrimeField>::Repr::default();
+    repr.as_mut().copy_from_slice(&b);
+    let r = Fp2::from_repr(repr);
+    let some: bool = r.is_some().into();
+    let canonical = lt_le_limbs(&limbs_of_bytes::<6, 48>(&lo), &BLS_P) && lt_le_limbs(&limbs_of_bytes::<6, 48>(&hi), &BLS_P);
+    assert!(some == canonical, "Fp2::from_repr accepted a non-canonical half");
+    vcover!(some);
+}
